@@ -109,6 +109,7 @@ def index_derived(fn, pv, operand, depth=0, seen=None):
 def run(ck, tier):
     ck.rule("R-C14-locfree", "typegraph: no field that feeds the Hash of LintContext is position-carrying (type Span, or an integer field that some workspace function assigns from a token-index source)")
     ck.rule("R-C14-agree", "ignore_lint and is_ignored obtain the hash from the same function with the same argument roles; remove_ignored retains exactly !is_ignored; LintContext::from_lint takes kind/suggestions/message/priority from the lint")
+    ck.rule("R-C14-select", "the tokens that enter the ignore context are selected by their own spans, independently of the rest of the document: nothing that LintContext::from_lint reaches inside harper_core::document searches the token vector with an order-dependent primitive (partition_point, binary_search*): the Markdown front end does not keep its tokens in source order (zero-width paragraph breaks), so a sorted-vector search makes the selection depend on how many tokens other paragraphs have")
     ck.rule("R-C14-stable", "the ignore hash means the same in every process and every IgnoredLints instance: hash_lint_context feeds a hasher with fixed keys (std DefaultHasher / SipHasher built with default()/new(), a FixedState or BuildHasherDefault), never a per-instance or per-process seeded one (RandomState, a container's own .hasher())")
     ck.rule("R-C14-context", "the ignore context hashes the TokenKind of neighbouring tokens, so a word's kind must be a function of its own characters: in Document::parse the dictionary lookup `*meta = dictionary.get_word_metadata(own span)` is the last writer of token kinds - no pass that runs after it rewrites a kind, unless it only touches the element it iterates over")
     ck.rule("R-C14-serde", "IgnoredLints derives Serialize+Deserialize without asymmetric attributes; wasm export/import use serde_json to_string/from_str on that type and import appends")
@@ -201,6 +202,7 @@ def run(ck, tier):
     _wasm_io(ck, p)
     _context(ck, p)
     _stable(ck, p)
+    _select(ck, p)
 
 
 def _writes_kind(p, fn, memo, depth=0):
@@ -446,3 +448,31 @@ def _stable(ck, p):
         ck.proved(rule, "IgnoredLints::hash_lint_context", f.span, "hasher types in the function: %s (fixed keys)" % fixed)
     else:
         ck.undecided(rule, "IgnoredLints::hash_lint_context", f.span, "no hasher type recognised among %s" % hashers)
+
+
+def _select(ck, p):
+    from .. import callgraph
+    from ..common import method as _m
+    rule = "R-C14-select"
+    byk = fns_by_key(p)
+    fs = byk.get("LintContext::from_lint")
+    if not ck.anchor(rule, "LintContext::from_lint", fs):
+        return
+    f = fs[0]
+    ck.saw(f)
+    cg = callgraph.CallGraph(p.snap)
+    doc = "harper_core::document::"
+    par = cg.reach([f.name])
+    reached = sorted(q for q in par if q.startswith(doc) and q in p.fns)
+    ck.floor(rule, "Document functions reached from LintContext::from_lint", len(reached), 2)
+    bad = []
+    for q in reached:
+        g = p.fns[q]
+        for bi, t in g.calls():
+            if _m(t) in ("partition_point", "binary_search", "binary_search_by", "binary_search_by_key"):
+                bad.append((keyname(p, g), g.loc(t["ln"]), _m(t)))
+    if bad:
+        fn, where, m = bad[0]
+        ck.refuted(rule, "from_lint:%s" % fn, where, "%s selects tokens with %s, which assumes the token vector is sorted by position; Markdown documents are not (the zero-width ParagraphBreak of a block sits at the start of the block's last text chunk), so which tokens are hashed depends on the size of the rest of the document and an ignored lint comes back after an edit elsewhere" % (fn, m))
+    else:
+        ck.proved(rule, "from_lint:token-selection", f.span, "%d Document functions reachable from from_lint; none uses partition_point / binary_search on the tokens" % len(reached))
